@@ -135,8 +135,8 @@ def check_accessors(ctx, led, v, rules=("total", "pure", "fresh"), prefix="C18")
                     writes.append((e, "assigns self.%s" % e.data.get("attr")))
                 elif e.kind == "map_store" and e.data.get("map") in held:
                     writes.append((e, "stores into a dict held by the object"))
-                elif e.kind == "map_mutation":
-                    writes.append((e, "mutates a dict (%s)" % e.data.get("what")))
+                elif e.kind == "map_mutation" and (e.data.get("map") is None or e.data.get("map") in held):
+                    writes.append((e, "mutates a dict held by the object (%s)" % e.data.get("what")))
                 elif e.kind == "global_write":
                     writes.append((e, "writes module-level state (%s)" % e.data.get("what")))
             for e, what in writes:
